@@ -27,6 +27,7 @@ EXPLANATION = (
     "propagator's init_prop_data or by the entry prologue. "
     "WMEAN-1: the block estimator averages over the stored population weights (no masked copy). DET-1: "
     "a user-supplied seed is kept for every value (get / setdefault / `not in`, never `or`). "
+    " GUARD-1: the energy cap is computed from the propagator's own dt (prop.dt), not from a sampler attribute or a literal. DET-1: the Gaussian fields drawn for a block do not depend on n_batch (batching is an evaluation strategy; the shape handed to random.normal is (n_prop_steps, n_walkers, n_fields)). "
 )
 NOT_DECIDED = "numerical equality of the energies across entry points; bit-level reproducibility of XLA."
 
